@@ -11,7 +11,7 @@ TECH = "deterministic simulation with fault injection: seeded search over schedu
 CHECKS = {
  "C02": ("exploration", "6.C02",
    "Seeded deterministic simulation of the real Commander/locker/batcher/VM over a simulated store: every accepted transaction is checked against the balances folded from the persisted log at its position (per-posting floor = the overdraft its request granted), and re-executed alone at that position with a freshly compiled program. Sampling, not proof: a clean batch is evidence over the schedules, workloads (literal / variable / metadata-designated / ordered / capped / overdraft sources, send-all, balance(), posting mode, reverts) and faults drawn.",
-   "simulated store models PostgreSQL's contract (DESIGN 13); balance reads of one request are atomic in the simulator; interleavings at seam/hook granularity; bounds <=5 clients x 3 ops, <=4 accounts"),
+   "simulated store models PostgreSQL's contract (DESIGN 13); balance reads of one request are atomic in the simulator; interleavings at seam/hook granularity, plus statement boundaries of the engine packages on half of the workers; bounds <=5 clients x 3-4 ops (thorough: one more client, twice the requests), <=4 accounts"),
  "C05": ("exploration", "6.C05",
    "Every commit is checked inside the simulated store, across all generations: ids 0,1,2.. without gap, stored hash = the repository's ChainLog over the actual predecessor, transaction ids +1 in log order; the hash function's dependence on predecessor hash / type / data / date / idempotency key is tested on every entry. Schedules interleave id allocation, chaining, hand-off and persistence (hooks inside the append critical section), batch sizes 1-3, crashes at arbitrary steps and at named windows, restarts, store failures; thorough adds a crash sweep (a crash at every step of sampled schedules).",
    "hash oracle uses the repository's own ComputeHash (layout not pinned, dependence tested); duplicate log/tx ids are refused by the stub like the real unique indexes"),
@@ -38,7 +38,7 @@ CHECKS = {
    "single-client schedules for the differential part (the two runs must be comparable step by step)"),
  "C15": ("exploration", "6.C15",
    "Dedicated simulation of command.DefaultLocker alone: 2-8 tasks with random read/write sets lock, hold and release; contexts are cancelled at arbitrary steps, in particular while the waiter sits between observing ctx.Done and dequeuing, so that a release can grant it in exactly that window. Oracle: holder intervals never overlap with a writer; at quiescence no uncancelled request is still waiting; a cancelled Lock returns an error; a final probe write-locking all accounts is granted.",
-   "interleavings at the locker's hook points (entry, cancelled, granted, release); memory-level races inside one critical section are out of reach"),
+   "interleavings at the locker's hook points (entry, cancelled, granted, release) and, on half of the workers, at every statement boundary of lock.go including inside its critical sections (rewritten copy); races that need two goroutines running at the same instant, or a preemption inside one statement, are out of reach"),
  "C16": ("exploration", "6.C16",
    "The real ledgerMonitor publishes into a recording publisher that is a scheduling point. At each publish the decoded wire payload must describe an entry already committed at that step (transaction content, revert roles, metadata target and payload); previews publish nothing; in every generation that ended in an orderly way each committed entry has been described by at least one event by the end of the generation.",
    "at-least-once is judged for crash-free generations only (no outbox in the code; the statement does not quantify over crashes)"),
